@@ -215,22 +215,62 @@ def mock_apply_for_eval(params, batch):
   return batch['pred']
 
 
+def mock_init(rng):
+  return None
+
+
+def mock_apply_for_train(params, batch, rng):
+  return None
+
+
+def mock_train_loss(batch, out):
+  return None
+
+
+def metric_keys(menu, naming):
+  """The names under which a model lists its metrics: descriptive registry
+  names, or the position-only names a user might pick ('metric_0', ...), which
+  different models share."""
+  if naming == 'generic':
+    return ['metric_%d' % i for i in range(len(menu))]
+  return [key_of(n, pd) for n, pd in menu]
+
+
 @functools.lru_cache(maxsize=None)
-def build_model(family, c, t, menu):
-  eval_metrics = {key_of(n, pd): build_metric(family, n, pd, c, t)
-                  for n, pd in menu}
-  # The mock model of docs/fedjax.metrics.rst.
+def build_model(family, c, t, menu, naming='descriptive'):
+  eval_metrics = {k: build_metric(family, n, pd, c, t)
+                  for k, (n, pd) in zip(metric_keys(menu, naming), menu)}
+  # The mock model of docs/fedjax.metrics.rst.  All models share their four
+  # callables (module-level functions) and differ only in eval_metrics.
   return fedjax.Model(
-      init=lambda rng: None,
-      apply_for_train=lambda params, batch, rng: None,
+      init=mock_init,
+      apply_for_train=mock_apply_for_train,
       apply_for_eval=mock_apply_for_eval,
-      train_loss=lambda batch, out: None,
+      train_loss=mock_train_loss,
       eval_metrics=eval_metrics)
 
 
 @functools.lru_cache(maxsize=None)
-def build_evaluator(family, c, t, menu):
-  return fmodels.ModelEvaluator(build_model(family, c, t, menu))
+def sibling_menu(family, c, t, menu):
+  """The menu with the metrics rotated by one inside every group whose zero()
+  statistics have the same type and leaf shapes (so that the two models'
+  evaluation steps see identically shaped arguments)."""
+  groups = {}
+  for i, (n, pd) in enumerate(menu):
+    z = build_metric(family, n, pd, c, t).zero()
+    sig = (type(z).__name__,
+           tuple(np.shape(l) for l in jax.tree_util.tree_leaves(z)))
+    groups.setdefault(sig, []).append(i)
+  out = list(menu)
+  for idx in groups.values():
+    for a, b in zip(idx, idx[1:] + idx[:1]):
+      out[a] = menu[b]
+  return tuple(out)
+
+
+@functools.lru_cache(maxsize=None)
+def build_evaluator(family, c, t, menu, naming='descriptive'):
+  return fmodels.ModelEvaluator(build_model(family, c, t, menu, naming))
 
 
 @functools.lru_cache(maxsize=None)
@@ -509,13 +549,27 @@ def run_model_paths(case):
   fam, c, t = case['family'], case['C'], case.get('T', 0)
   menu = tuple((n, int(pd)) for n, pd in case['metrics']) if case.get('metrics') \
       else tuple(default_menu(fam, t, case.get('menu', 'full')))
-  model = build_model(fam, c, t, menu)
+  naming = case.get('naming', 'descriptive')
+  names = metric_keys(menu, naming)
+  model = build_model(fam, c, t, menu, naming)
   span = logit_span(case)
   ex, batches = build_batches(case)
   user_batches = [with_mask(case, feats, mask) for feats, mask, _ in batches]
 
   # fedjax under test first (so that an exception is attributed to it)
   results = {}
+  if case.get('sibling_first') and len(menu) >= 2:
+    # Another model evaluated on the same batches just before: same four
+    # callables, same metric NAMES, but the names map to other metric objects
+    # (the menu rotated by one).  What the model under test returns must be
+    # decided by its own metrics, not by whatever was evaluated before it.
+    sib_menu = sibling_menu(fam, c, t, menu)
+    sibling = build_model(fam, c, t, sib_menu, naming)
+    if 'evaluate_model' in case['via']:
+      fedjax.evaluate_model(sibling, None, user_batches)
+    if 'evaluator' in case['via']:
+      list(build_evaluator(fam, c, t, sib_menu, naming).evaluate_global_params(
+          None, [(b'sib', user_batches)]))
   if 'evaluate_model' in case['via']:
     results['evaluate_model'] = fedjax.evaluate_model(model, None, user_batches)
     # a generator is an Iterable too
@@ -531,7 +585,7 @@ def run_model_paths(case):
         model, None, dataset.padded_batch(
             batch_size=pb['batch_size'], num_batch_size_buckets=pb['buckets']))
   if 'evaluator' in case['via']:
-    evaluator = build_evaluator(fam, c, t, menu)
+    evaluator = build_evaluator(fam, c, t, menu, naming)
     rev = list(reversed(user_batches))
     if case.get('per_client_params'):
       out = list(evaluator.evaluate_per_client_params(
@@ -546,7 +600,8 @@ def run_model_paths(case):
 
   # reference: one-by-one fold of single-example statistics from zero()
   f = per_example_fn(fam, c, t, menu)
-  ref = {k: m.zero() for k, m in model.eval_metrics.items()}
+  ref_model = build_model(fam, c, t, menu)
+  ref = {k: m.zero() for k, m in ref_model.eval_metrics.items()}
   for e in ex:
     ref = merge_all(ref, f(e))
   probe_row = case['pads'][0] if case['pads'] else (case['examples'][0] if case['examples'] else None)
@@ -556,7 +611,7 @@ def run_model_paths(case):
   for path, res in results.items():
     require(sorted(res.keys()) == sorted(model.eval_metrics.keys()), 'model:result_keys',
             f'{path}: {list(res.keys())}')
-    for (n, pd) in menu:
+    for (n, pd), name in zip(menu, names):
       k = key_of(n, pd)
       cls = type(BASES[fam][n][0](c, t)).__name__
       want = np.asarray(ref[k].result())
@@ -567,8 +622,8 @@ def run_model_paths(case):
           zshapes.append(np.asarray(probe[k].result()).shape)
       clause = ('evaluator' if path.startswith('evaluator') else 'evaluate_model')
       clause += ':empty' if empty else ''
-      compare_results(want, res[k], is_exact(fam, n), span, f'{clause}:{cls}',
-                      f'{path} metric {k!r} over {len(ex)} examples in '
+      compare_results(want, res[name], is_exact(fam, n), span, f'{clause}:{cls}',
+                      f'{path} metric {name!r} ({k}) over {len(ex)} examples in '
                       f'{[len(b) for b in case["batches"]]}', zero_shapes=zshapes)
 
 
@@ -741,6 +796,11 @@ def model_case_strategy(draw, tier, force_empty=False):
                                       ['evaluate_model', 'evaluator']]))
   case['per_client_params'] = draw(st.booleans())
   case['as_generator'] = draw(st.booleans())
+  if draw(st.integers(0, 2)) == 0:
+    # position-only metric names, and another model with the same names but
+    # other metrics is evaluated on the same batches first
+    case['naming'] = 'generic'
+    case['sibling_first'] = True
   case.update(draw(partition_strategy(family, c, t, 10 if tier == 'quick' else 16,
                                       force_empty)))
   if not force_empty and draw(st.integers(0, 3)) == 0:
@@ -806,6 +866,8 @@ def eval_labels(case):
       ls.append('excluded_known:perdomain-per-position')
   elif 'via' in case:
     ls += ['via:' + v for v in case['via']]
+    if case.get('sibling_first'):
+      ls.append('same_names_other_metrics_model_evaluated_first')
     if case.get('padded_batch') and case['examples']:
       ls.append('via:ClientDataset.padded_batch')
     if case['family'] == 'seq':
